@@ -51,7 +51,7 @@ ASSUMPTIONS = [
     'failures of rm_file/rm_directory are counted (rm-raised:*) but are not C13 violations',
 ]
 SHARDS = {'quick': 16, 'thorough': 16}
-CASES = {'quick': 3000, 'thorough': 40000}
+CASES = {'quick': 3000, 'thorough': 30000}
 MIN_NONTRIVIAL = {'quick': 2000, 'thorough': 20000}
 
 SECTOR = 2048
@@ -388,8 +388,13 @@ def run_case(case, col, record=True):
     aborted = None
     refused_any = False
     nontriv = h in ('dup-same', 'dup-other-kind', 'readd', 'other-ns', 'other-version', 'rr-dup', 'link-dup')
+    tainted = set()   # (ns, path components) whose identifier is ambiguous after an accepted duplicate
     for i, op in enumerate(ops):
         shim.reset(i + 1)
+        if (op['ns'], tuple(split(op['path']))) in tainted:
+            # the model cannot say which of the two entries a later edit on that name hits
+            bump(measured, 'stopped:edit-on-name-made-ambiguous-by-accepted-duplicate')
+            break
         if op['op'] in ('rm_file', 'rm_dir'):
             comps = split(op['path'])
             if model.tree[op['ns']].get(tuple(comps[:-1]), {}).get(comps[-1]) is None:
@@ -447,6 +452,8 @@ def run_case(case, col, record=True):
         classes.append('ns:%s/%s' % (ns, opk))
         if exp['verdict'] is False:
             pending.append((op, exp, opk))
+            if exp['reason'] == 'duplicate':
+                tainted.add((ns, tuple(split(op['path']))))
         accepted.append((op, exp, opk))
         model.add(op, exp)
 
